@@ -23,7 +23,7 @@ RULE = ('Cases: (P, tau) with P substitution-free and I = P[tau] computed by O1 
 ASSUMPTIONS = ['completeness is only demanded for substitution-free patterns, as the property states']
 FLOORS = {'quick': {'match_single_success': 1000, 'match_single_failure': 1000, 'empty_substitution_success': 200, 'seeded_agree': 300, 'seeded_conflict': 300,
                     'match_list': 2000, 'match_list_all_ground': 200, 'match_list_empty': 10, 'match_list_identity_equation': 200, 'notation_roundtrips': 3000, 'assert_matches_calls': 3000,
-                    'notation_arity0': 50, 'nary_deconstruct': 200, 'instances_spelled_through_substitution_headed_notation': 200}}
+                    'notation_arity0': 50, 'nary_deconstruct': 200, 'nary_deconstruct_notation_in_head_position': 200, 'instances_spelled_through_substitution_headed_notation': 200}}
 FLOORS['thorough'] = dict(FLOORS['quick'])
 
 
@@ -253,6 +253,17 @@ def shard(ctx):
             sym, dargs = K.deconstruct_nary_application(app)
             if E(sym) != E(N_.definition if N_.arity == 0 else _head(N_.definition)) or tuple(E(a) for a in dargs) != tuple(tb.norm_py(a) for a in args_e):
                 ctx.violation('nary_deconstruct_wrong', 'deconstruct_nary_application does not return the symbol and arguments', W(pattern=app, got=[str(sym)] + [str(a) for a in dargs]))
+            # the application used as the HEAD of a longer spine: (N(args) . x) . y  deconstructs into the symbol and args + [x, y]
+            extra_e = [rp.rand_term(rng, 1, meta=False, notation=0.2) for _ in range(rng.randint(1, 2))]
+            spine = app
+            for x_e in extra_e:
+                spine = P.App(spine, rp.fold(x_e, rng, 0.4))
+            ctx.count('nary_deconstruct_notation_in_head_position')
+            sym2, dargs2 = K.deconstruct_nary_application(spine)
+            want = tuple(tb.norm_py(a) for a in args_e) + tuple(tb.norm_py(x) for x in extra_e)
+            if E(sym2) != E(N_.definition if N_.arity == 0 else _head(N_.definition)) or tuple(E(a) for a in dargs2) != want:
+                ctx.violation('nary_deconstruct_wrong:notation_in_head_position', 'deconstruct_nary_application loses arguments when the head of the spine is a notation application',
+                              W(pattern=spine, got=[str(sym2)] + [str(a) for a in dargs2]))
 
 
 def _head(p):
